@@ -12,6 +12,7 @@ import Regatta.Driver.ApiMode
 import Regatta.Driver.AuthMode
 import Regatta.Driver.ReplMode
 import Regatta.Driver.GmsgMode
+import Regatta.Driver.ConcMode
 /-
   Model driver: one operation per input line, one answer per output line.
   usage: driver <mode> < ops.txt > model.txt
@@ -41,6 +42,7 @@ def main (args : List String) : IO UInt32 := do
   | ["wire"] => loop stdin stdout Driver.WireMode.step ()
   | ["gmsg"] => loop stdin stdout Driver.GmsgMode.step ()
   | ["repl"] => loop stdin stdout Driver.ReplMode.step ({} : Driver.ReplMode.St)
+  | ["conc"] => loop stdin stdout Driver.ConcMode.step ({} : Driver.ConcMode.St)
   | ["auth"] => loop stdin stdout Driver.AuthMode.step ({} : Driver.AuthMode.St)
   | ["api"] => loop stdin stdout Driver.ApiMode.step ({} : Driver.ApiMode.St)
   | ["crash"] => loop stdin stdout Driver.CrashMode.step ({} : Driver.CrashMode.St)
